@@ -539,6 +539,64 @@ func mappingOnClosedShape() (found, takesDisposeLock bool) {
 	return
 }
 
+// round 9: flush sites of CopyWithControl's batched counter; releaseSlot of handleConnection goes through a sync.Once
+func copyFlushShape() (found, ctxFlush, tailFlush, deferFlush bool) {
+	fset := token.NewFileSet()
+	f, err := parser.ParseFile(fset, filepath.Join(repoRoot(), "internal/protocol/session/tunnel/bridge_forward.go"), nil, 0)
+	if err != nil {
+		return
+	}
+	fd := findMethod(f, "Bridge", "CopyWithControl")
+	if fd == nil {
+		return
+	}
+	found = true
+	for _, st := range fd.Body.List {
+		txt := strings.ReplaceAll(nodeText(fset, st), " ", "")
+		switch x := st.(type) {
+		case *ast.DeferStmt:
+			if strings.Contains(txt, "counter.Add(batchCounter)") {
+				deferFlush = true
+			}
+		case *ast.ForStmt:
+			// the explicit add inside the `<-b.Ctx().Done()` branch
+			ast.Inspect(x.Body, func(n ast.Node) bool {
+				if cc, ok := n.(*ast.CommClause); ok && strings.Contains(strings.ReplaceAll(nodeText(fset, cc.Comm), " ", ""), "Ctx().Done()") {
+					if strings.Contains(strings.ReplaceAll(nodeText(fset, cc), " ", ""), "counter.Add(batchCounter)") {
+						ctxFlush = true
+					}
+				}
+				return true
+			})
+		case *ast.IfStmt:
+			if strings.Contains(txt, "counter.Add(batchCounter)") {
+				tailFlush = true
+			}
+		}
+	}
+	return
+}
+
+func releaseSlotShape() (found, once bool) {
+	fset := token.NewFileSet()
+	f, err := parser.ParseFile(fset, filepath.Join(repoRoot(), "internal/client/mapping/base.go"), nil, 0)
+	if err != nil {
+		return
+	}
+	fd := findMethod(f, "BaseMappingHandler", "handleConnection")
+	if fd == nil {
+		return
+	}
+	for _, st := range fd.Body.List {
+		txt := strings.ReplaceAll(nodeText(fset, st), " ", "")
+		if strings.HasPrefix(txt, "releaseSlot:=") {
+			found = true
+			once = strings.Contains(txt, ".Do(func()")
+		}
+	}
+	return
+}
+
 func coqBool(b bool) string {
 	if b {
 		return "true"
@@ -609,6 +667,12 @@ func gen() {
 	mof, mol := mappingOnClosedShape()
 	fmt.Println("(* the OnClosed closure of handleConnection takes the handler's own Dispose lock *)")
 	fmt.Printf("Definition MappingOnClosedFound : bool := %s.\nDefinition MappingOnClosedTakesDisposeLock : bool := %s.\n", coqBool(mof), coqBool(mol))
+	cff, cfc, cft, cfd := copyFlushShape()
+	fmt.Println("(* CopyWithControl flushes its batch in the context branch / after the loop / in a defer *)")
+	fmt.Printf("Definition CopyFlushShapeFound : bool := %s.\nDefinition CopyFlushCtx : bool := %s.\nDefinition CopyFlushTail : bool := %s.\nDefinition CopyFlushDefer : bool := %s.\n", coqBool(cff), coqBool(cfc), coqBool(cft), coqBool(cfd))
+	rsf, rso := releaseSlotShape()
+	fmt.Println("(* handleConnection's releaseSlot goes through a sync.Once *)")
+	fmt.Printf("Definition ReleaseSlotShapeFound : bool := %s.\nDefinition ReleaseSlotOnce : bool := %s.\n", coqBool(rsf), coqBool(rso))
 	fmt.Printf("Definition BatchUpdateThreshold : N := %d%%N.\n", int64(constants.BatchUpdateThreshold))
 }
 
